@@ -126,6 +126,29 @@ func c04NormPath(p string) string {
 	return b.String()
 }
 
+// c04StratPath is the path as a sampling stratum: position 0 and the later positions of every array
+// are different strata (`[0]` / `[+]`) — a check that covers only the first component of a vector
+// must meet a tampering of a later one.
+func c04StratPath(p string) string {
+	var b strings.Builder
+	for i := 0; i < len(p); i++ {
+		if p[i] == '[' {
+			j := strings.IndexByte(p[i:], ']')
+			if j > 1 {
+				if p[i+1:i+j] == "0" {
+					b.WriteString("[0]")
+				} else {
+					b.WriteString("[+]")
+				}
+				i += j
+				continue
+			}
+		}
+		b.WriteByte(p[i])
+	}
+	return b.String()
+}
+
 func c04IsLeaf(n *c12Node) bool { return n.major != 4 && n.major != 5 && n.major != 6 }
 
 // c04OpsFor lists the operators applicable to a site (before looking at donors).
